@@ -493,3 +493,48 @@ class SelectSeam:
 			reason = sim.block(t)
 			if reason == "timeout":
 				return [], [], []
+
+
+# ---------------------------------------------------------------- installation --------
+def install_seams(modules, patch, sim, net=None, env=None):
+	"""Replace, in every given toolkit module, whatever it holds of threading / time / socket /
+	select / random — the module objects themselves or names imported from them — by the
+	simulated counterparts.  `patch(module, name, value)` records and applies one replacement."""
+	import random as _random
+	import select as _select
+	import socket as _socket
+	import threading as _threading
+	import time as _time
+	thr = ThreadingSeam(sim)
+	tm = TimeSeam(sim)
+	by_module = {_threading: thr, _time: tm}
+	names = {}
+	for n in ("Thread", "Event", "Lock", "RLock", "Condition", "Semaphore", "BoundedSemaphore", "current_thread", "get_ident"):
+		names[id(getattr(_threading, n))] = getattr(thr, n)
+	for n in ("monotonic_ns", "monotonic", "time", "time_ns", "perf_counter", "perf_counter_ns", "sleep"):
+		names[id(getattr(_time, n))] = getattr(tm, n)
+	if net is not None:
+		sockmod = SimSocketModule(net)
+		selmod = SelectSeam(sim, net)
+		by_module[_socket] = sockmod
+		by_module[_select] = selmod
+		names[id(_socket.socket)] = sockmod.socket
+		names[id(_select.select)] = selmod.select
+	if env is not None:
+		by_module[_random] = env
+		for n in ("randint", "randrange", "choice", "uniform", "getrandbits", "shuffle", "sample", "random"):
+			names[id(getattr(_random, n))] = getattr(env, n)
+	for mod in modules:
+		for name, val in list(mod.__dict__.items()):
+			if name.startswith("__"):
+				continue
+			try:
+				if val in by_module:
+					patch(mod, name, by_module[val])
+					continue
+			except TypeError:
+				pass
+			rep = names.get(id(val))
+			if rep is not None and not isinstance(val, (int, float, str, bytes, tuple)):
+				patch(mod, name, rep)
+	return thr, tm
